@@ -129,6 +129,25 @@ type memoryDatabase struct {
 	lock     sync.RWMutex // lock of create metric store
 }
 
+// lastCreatedTime is the created time of the last memory database.
+var lastCreatedTime atomic.Int64
+
+// nextCreatedTime returns the created time for new memory database, it must be unique,
+// because it is the key of the time range in time series index(shared by all families of shard),
+// the resolution of fasttime is some milliseconds, so need make sure it is strictly increasing.
+func nextCreatedTime() int64 {
+	for {
+		last := lastCreatedTime.Load()
+		now := fasttime.UnixNano()
+		if now <= last {
+			now = last + 1
+		}
+		if lastCreatedTime.CompareAndSwap(last, now) {
+			return now
+		}
+	}
+}
+
 // NewMemoryDatabase returns a new MemoryDatabase.
 func NewMemoryDatabase(cfg *MemoryDatabaseCfg) (MemoryDatabase, error) {
 	db := &memoryDatabase{
@@ -137,7 +156,7 @@ func NewMemoryDatabase(cfg *MemoryDatabaseCfg) (MemoryDatabase, error) {
 		familyTime:    cfg.FamilyTime,
 		name:          cfg.Name,
 		timeSeriesIDs: roaring.New(),
-		createdTime:   fasttime.UnixNano(),
+		createdTime:   nextCreatedTime(),
 		statistics:    metrics.NewMemDBStatistics(cfg.Name),
 	}
 	return db, nil
